@@ -11,7 +11,11 @@ observations.
 Records of one case (see go/harness/mcp/zz_verif_clientstream_test.go):
   reset
   scn <post|sa> mr=<MaxRetries field> first=<cut>:<term> script=.. log=<items> full=x<hex>     obs ok
-  x <k> <terr|st<code>|ok:<cut>:<term>>[*] from=<idx|-|unknown> t=<µs> e=<µs>                   obs lei=<x<hex>|->
+  x <k> <terr|ctxc|ctxd|st<code>|ok:<cut>:<term>>[*] from=<idx|-|unknown> t=<µs> e=<µs> [is=<c><d><t>] [code=<n> ct=<..> junk=x<hex>]   obs lei=<x<hex>|->
+      is=   (terr) what the error answered to errors.Is(Canceled) / errors.Is(DeadlineExceeded) / Timeout()
+      junk= (ok:0:<term>) a foreign answer: the bytes of a body that is no SSE stream; accepted only if the model's
+            scanner makes of it what it makes of an empty body (no event, same end) — else `bad-op`
+  c t=<µs>      the caller's context was cancelled while no request was in flight                obs ok
   delivered atret=<n>                                                                            obs <labels|->
   end                                                                                            obs result:R | ok | err:<kind> | hang
   leak                                                                                           obs none | leak
@@ -48,9 +52,26 @@ def parseTerm : String → Option Term
   | "hang" => some .open
   | _ => none
 
-def parseAttempt (s : String) : Option AKind :=
+def parseBit : Char → Option Bool
+  | '0' => some false
+  | '1' => some true
+  | _ => none
+
+/-- the `is=<c><d><t>` field of a `terr` exchange -/
+def parseTErr (s : Option String) : Option TErr :=
+  match s with
+  | none => some {}
+  | some s =>
+    match s.toList with
+    | [c, d, t] => do
+      let c ← parseBit c; let d ← parseBit d; let t ← parseBit t
+      some { isCanceled := c, isDeadline := d, isTimeout := t }
+    | _ => none
+
+def parseAttempt (s : String) (is : Option String := none) : Option AKind :=
   let s := if s.endsWith "*" then String.ofList (s.toList.dropLast) else s
-  if s = "terr" then some .terr
+  if s = "terr" then (parseTErr is).map .terr
+  else if s = "ctxc" || s = "ctxd" then some .ctx
   else if s.startsWith "st" then (dropS s 2).toNat?.map .st
   else match s.splitOn ":" with
     | ["ok", c, t] => do let c ← c.toNat?; let t ← parseTerm t; some (.ok c t)
@@ -72,6 +93,7 @@ def parseEnd (impl : String) : EndObs :=
   else if impl = "err:reconnect" then .reconnect
   else if impl = "err:session-missing" then .sessionMissing
   else if impl.startsWith "err:st" then .st (dropS impl 6).toNat?
+  else if impl = "err:ctx" then .ctx
   else .other
 
 /-! ### rendering -/
@@ -92,6 +114,7 @@ def showEnd : EndObs → String
   | .sessionMissing => "err:session-missing"
   | .st (some c) => s!"err:st{c}"
   | .st none => "err:st?"
+  | .ctx => "err:ctx"
   | .other => "err:other"
 
 def endName (sa : Bool) : Phase → String
@@ -108,6 +131,7 @@ def Clause.text : Clause → String
   | .afterStatus => "C09: a reconnect was attempted after a response whose status fails the connection"
   | .fruitlessExceeded => "C09: bounded_fruitless_retries: another reconnect after more than maxRetries bodies without progress"
   | .connectExceeded => "C09: bounded_fruitless_retries: connectSSE made more than maxRetries attempts"
+  | .afterCancel => "C09: a reconnect was attempted after the caller's context had ended (the retry loop must stop with the caller, and only with the caller)"
   | .delay dl lo hi attempt hint => s!"C09: reconnect delay {dl}ns outside the schedule [{lo},{hi}) (attempt {attempt}, hint {hint}ms): a retry hint of an incomplete event was used, or the back-off is off"
   | .foreign => "C09: no_truncated_message: a message that is not one of the server's messages reached the session"
   | .dupOrOrder => "C09: delivered_exactly_once_in_order: a message was delivered twice or out of order"
@@ -115,11 +139,11 @@ def Clause.text : Clause → String
   | .missing => "C09: delivered_exactly_once_in_order: a completely received message never reached the session"
   | .f18Lost => "C09: F18 delivered_exactly_once_in_order: a server message was lost: the stream was resumed without Last-Event-ID after the resume cursor had been lost"
   | .f5Lost => "C09: F5 delivered_exactly_once_in_order: a server message was lost: the stream was resumed from an event that had not been received completely"
-  | .hang => "C09: the pending call hangs: neither the server's response nor an error"
+  | .hang => "C01+C09: the pending call hangs: neither the server's response nor an error"
   | .f5Decode => "C09: F5 no_truncated_message: an event cut by the end of the body was surfaced to the decoder (connection failed: failed to decode event)"
   | .f5Malformed => "C09: F5 process_ignores_unterminated: a line cut by the end of the body was treated as corruption (connection failed: malformed line)"
   | .probeResult => "C09: unexpected result for the probe"
-  | .notServerResponse => "C09: the call completed with something that is not the server's response"
+  | .notServerResponse => "C01+C09: the call completed with something that is not the server's response to it"
   | .f5ResponseIncomplete => "C09: F5 no_truncated_message: the call completed with a response event that was not received completely (its terminating blank line never arrived)"
   | .probeOutcomeForCall => "C09: unexpected probe outcome for a call scenario"
   | .replyNotCompleted => "C09: the server's response was received completely but the call did not complete with it"
@@ -131,6 +155,7 @@ def Clause.text : Clause → String
   | .statusNotReturned => "C09: status error that no exchange returned"
   | .unclassified => "C09: unclassified error"
   | .unexpectedError => "C09: the pending call ended with an unexpected error"
+  | .ctxLive => "C09: the pending call ended with a context error although the caller's context was live"
   | .leak => "C09: goroutines of the client remain blocked for ever after Close (the bubble cannot exit)"
 
 /-! ### state -/
@@ -167,11 +192,16 @@ def engine : Engine DState where
       if !d.ready then (d, { model := "bad-op" }) else
       let r : Option (DState × Verdict) := do
         let k ← k.toNat?
-        let a ← parseAttempt att
+        let a ← parseAttempt att (kv rest "is")
         let tS ← (kv rest "t").bind String.toNat?
         let tE ← (kv rest "e").bind String.toNat?
         let fr := (kv rest "from").bind String.toNat?
         let xr : XRec := { k := k, kind := a, from_ := fr, tStart := tS, tEnd := tE, hdr := parseHdr impl }
+        -- a foreign answer (204, application/json, …): its body must be, for the scanner, an empty body
+        match kv rest "junk", a with
+        | some j, .ok 0 t => if (hexToBytes (dropS j 1)).map (fun b => scanBytes b t) == some (scanBytes [] t) then pure () else none
+        | some _, _ => none
+        | none, _ => pure ()
         -- the served body, as a function of nothing (the harness tells where the faithful server started)
         let scanOf : Option ScanOut := scanOfX d.scn xr
         let (mon', viol) := monStep d.scn d.mon (.x xr)
@@ -196,6 +226,13 @@ def engine : Engine DState where
       match r with
       | some x => x
       | none => (d, { model := "bad-op" })
+    | ["c", t] =>
+      if !d.ready then (d, { model := "bad-op" }) else
+      match (kv [t] "t").bind String.toNat?, d.run with
+      | some t, some run =>
+        let (mon', viol) := monStep d.scn d.mon (.cancel t)
+        ({ d with run := some (step d.scn.cfg run (.ctxEnded false)), mon := mon' }, { model := "ok", violated := viol.map Clause.text })
+      | _, _ => (d, { model := "bad-op" })
     | "delivered" :: _ =>
       let implL := if impl = "-" then [] else words impl
       let model := match d.run with
